@@ -60,3 +60,6 @@ def run(ctx):
     for r, n in (("N1", 2), ("N2", 3), ("N3", 3), ("N4", 10), ("N5", 3), ("N6", 5), ("X6", 2), ("S0", 4), ("S3", 4), ("M6", 2), ("M4", 2),
                  ("V1", 14), ("V2", 4), ("V3", 9), ("V10", 3), ("E10", 7), ("V4", 4), ("V6", 8), ("V7", 2), ("V11", 2), ("G1", 3), ("G2", 2), ("G3", 2), ("G4", 4), ("G5", 5), ("G6", 3), ("G7", 8), ("K2", 3)):
         ctx.floor(r, n)
+    from ..engines import dispatch as DP
+    DP.d2_static_overrides_are_named(ctx, ("Constructor",))
+    ctx.floor("D2", 4)
